@@ -47,4 +47,12 @@ theorem iface_key_is_full_tuple :
       (∀ n ∈ ["inputs", "output", "size_dict", "optimize"], n ∈ ifaceKeyNames) ∧
       (∀ n ∈ ["inputs", "output"], n ∈ ifaceKeyBare) := by decide
 
+/-- **suboptimizer_fresh_per_call** — the premise `policy = fresh` of
+    `fresh_suboptimizer_isolation` (Props/C16Shared.lean), read off hyper.py / path_basic.py /
+    reusable.py: every `_get_suboptimizer` of a `ReusableOptimizer` subclass is a single
+    `return <Class>(...)`, and `_run_optimizer` calls it exactly once. -/
+theorem suboptimizer_fresh_per_call :
+    suboptFreshPerCall ≠ [] ∧ (∀ p ∈ suboptFreshPerCall, p.2 = true) ∧ suboptCallsPerRun = 1 := by
+  decide
+
 end Cotengra.C16
